@@ -1030,3 +1030,38 @@ Definition length_request_type (declared : option type_kw) : type_kw :=
 Definition length_applies (k : vclass) : bool := match k with KStr => true | _ => false end.
 (* region: every listed name is string *)
 Definition string_only (kw : type_kw) : bool := forallb (jtype_eqb TString) (types_of kw).
+
+(* ====================================================================== *)
+(* Part 7: magnitude - sentinel: the closest multiple through binary64     *)
+(* ====================================================================== *)
+(* closest_multiple_greater_than above is exact integer arithmetic (divmod), so it is right for integers of
+   any size.  The sentinel below is the planner kernel written with TRUE division: x * math.ceil(y / x).
+   Python int / int is the correctly rounded binary64 quotient (53 significant bits, round half to even);
+   math.ceil of a float is exact.  Subnormal and overflowing quotients are outside the sentinel. *)
+
+(* nearest integer to n / d for 0 < d, ties to even *)
+Definition round_half_even (n d : Z) : Z :=
+  let q := n / d in
+  let r := n mod d in
+  if 2 * r <? d then q else if d <? 2 * r then q + 1 else if Z.even q then q else q + 1.
+
+(* math.ceil(y / x) for x <> 0: the quotient is sign * m * 2^e with 2^52 <= m <= 2^53 *)
+Definition float53_quotient_ceil (y x : Z) : Z :=
+  let sign := Z.sgn y * Z.sgn x in
+  let a := Z.abs y in
+  let b := Z.abs x in
+  if a =? 0 then 0 else
+  let num e := if 0 <=? e then a else a * 2 ^ (- e) in
+  let den e := if 0 <=? e then b * 2 ^ e else b in
+  let e0 := Z.log2 a - Z.log2 b - 52 in
+  let e := if num e0 <? den e0 * 2 ^ 52 then e0 - 1 else e0 in
+  let m := round_half_even (num e) (den e) in
+  if 0 <=? e then sign * m * 2 ^ e else - ((- (sign * m)) / 2 ^ (- e)).
+
+Definition closest_multiple_float53 (y x : Z) : Z := x * float53_quotient_ceil y x.
+
+(* what the Minimum value needs from the kernel: the least multiple of x that is >= y *)
+Definition least_multiple_at_least (y x r : Z) : bool :=
+  (y <=? r) && (r <? y + x) && (r mod x =? 0).
+
+Definition zrange (lo : Z) (n : nat) : list Z := map (fun i => lo + Z.of_nat i) (seq 0 n).
